@@ -279,6 +279,20 @@ theorem series_limit_shared_id :
       [.series 0 0 0 [], .series 0 0 1 [], .series 0 0 2 [], .series 0 0 3 [], .series 0 0 4 []]
     (step {} nd (.series 0 0 3 [])).2 = some (.id 3) ∧ (step {} nd (.series 0 0 4 [])).2 = some (.id 3) := by decide
 
+/-- the schema flush window (current code): field 2 is created between the kv commit of the schema
+family and `MarkPersisted`; it is marked persisted without having been written. After the next flush
+the schema object has left memory, the persisted schema lacks field 2, and field 3 gets id 1 —
+the id field 2 was given in the same run of the node -/
+theorem schema_flush_window :
+    let r := (run {} ({} : Node) [.metric 97 0 0, .field 0 1, .metaPrepare]).metaFlushFieldInWindow {} 0 2
+    r.2 = .id 1 ∧ (step {} (run {} r.1 [.metaPrepare, .metaFlush]) (.field 0 3)).2 = some (.id 1) := by decide
+
+/-- marking only what was written: field 3 gets id 2 -/
+theorem schema_flush_window_repaired :
+    let c : Cfg := { schemaMarkWritten := true }
+    let r := (run c ({} : Node) [.metric 97 0 0, .field 0 1, .metaPrepare]).metaFlushFieldInWindow c 0 2
+    r.2 = .id 1 ∧ (step c (run c r.1 [.metaPrepare, .metaFlush]) (.field 0 3)).2 = some (.id 2) := by decide
+
 /-- the history of the witness case: the tag value `1` of tag key 0 is created after the last metadata
 flush (Sync), used by a series, the shard's index is flushed, the node is reopened -/
 def unsyncedHistory : List Op :=
